@@ -106,8 +106,30 @@ pub mod proofs {
         }
         pw_unwrap_arbitrary::<V, 89>(".local-pw.")
     });
-    h!(pw_rng_fail_closed_at0, pw_rng_fail_closed::<V, 0>(".local-pw.", arm, draws));
-    h!(pw_rng_fail_closed_at1, pw_rng_fail_closed::<V, 1>(".local-pw.", arm, draws));
+    // Cost parameters whose 32-bit fields are byte-palindromes (time = parallelism = 00 01 01 00 = 65792,
+    // memory 8 * 65792 KiB): valid under either byte order of the 32-bit fields (DESIGN.md 7.2).
+    fn pal_params() -> <V as paseto_core::paserk::PwWrapVersion>::Params {
+        let mem: u64 = 8 * 65792 * 1024;
+        let m = mem.to_be_bytes();
+        let pb: [u8; 16] = [m[0], m[1], m[2], m[3], m[4], m[5], m[6], m[7], 0, 1, 1, 0, 0, 1, 1, 0];
+        pw_params_from_bytes::<V, 56>(16, &pb).unwrap()
+    }
+    /// witness for the two harnesses below: with these parameters and a healthy RNG, pw_wrap_key does
+    /// reach the KDF (every path that returns before it would hit the assertion)
+    h!(pw_pal_params_reach_kdf, {
+        use paseto_core::paserk::PwWrapVersion;
+        unsafe {
+            argon2::ABORT_AT_KDF = true;
+            argon2::EXPECT_VALID = true;
+        }
+        let mut v = Vec::with_capacity(4);
+        v.extend_from_slice(&[1, 2, 3, 4]);
+        let r = V::pw_wrap_key(".local-pw.", b"pw", &pal_params(), v);
+        core::mem::forget(r);
+        assert!(false, "pw_wrap_key returned without reaching the KDF");
+    });
+    h!(pw_rng_fail_closed_at0, pw_rng_fail_closed_with::<V, 0>(".local-pw.", arm, draws, pal_params()));
+    h!(pw_rng_fail_closed_at1, pw_rng_fail_closed_with::<V, 1>(".local-pw.", arm, draws, pal_params()));
     h!(pke_rng_fail_closed_, {
         let r = rcpt();
         let key = forget(<V as HasKey<Local>>::decode(&[7u8; 32])).unwrap();
